@@ -449,7 +449,19 @@ def run(ctx):
             for p in ps:
                 lines.append(dict(op="localSamples", n=s["n"], mirror=s["mirror"], p=p))
                 kl_keys.append((si, p))
-    outs = ctx.model(DRIVER, lines)
+    sync_specs = []
+    for ns in ([0], [0, 1], [1, 0], [0, 0, 2], [2, 1]):
+        for rk in (False, True):
+            sync_specs.append(dict(scen="sync", seed=ctx.rng.randrange(1 << 30), ns=ns, rootkeeps=rk, model=0))
+    if ctx.quick:
+        sync_specs = sync_specs[:6]
+    sync_ps = [1, 2, 3] if not ctx.quick else [2]
+    n_before_sync = len(lines)
+    lines += [dict(op="sync", modes=[0 if n == 0 else 1 for n in s["ns"]], p=p, rootkeeps=s["rootkeeps"])
+              for p in sync_ps for s in sync_specs]
+    outs = ctx.model(DRIVER, lines)      # ONE model call for everything
+    mres = outs[n_before_sync:]
+    outs = outs[:n_before_sync]
     for c, m in zip(cases, outs):
         ctx.stat("shareRange:" + ("p=0" if c["p"] == 0 else ("p>n" if c["p"] > c["n"] else "p<=n")))
         ctx.compare(c, _impl_share(c), m, note="T3 shareRange: generated Lean definition vs Python original",
@@ -511,16 +523,6 @@ def run(ctx):
             if j is not None:
                 ctx.counterexample(dict(spec=s, p=3, mode="procs"), *j)
     # ---- the sync checks of optimize_kl vs Model/Distributed.checksPass (incl. the non-mpi4py broadcast semantics) -------
-    sync_specs = []
-    for ns in ([0], [0, 1], [1, 0], [0, 0, 2], [2, 1]):
-        for rk in (False, True):
-            sync_specs.append(dict(scen="sync", seed=ctx.rng.randrange(1 << 30), ns=ns, rootkeeps=rk, model=0))
-    if ctx.quick:
-        sync_specs = sync_specs[:6]
-    sync_ps = [1, 2, 3] if not ctx.quick else [2]
-    mlines = [dict(op="sync", modes=[0 if n == 0 else 1 for n in s["ns"]], p=p, rootkeeps=s["rootkeeps"])
-              for p in sync_ps for s in sync_specs]
-    mres = ctx.model(DRIVER, mlines)
     k = 0
     for p in sync_ps:
         so, sf = _run(sync_specs, p)
